@@ -17,6 +17,7 @@ RULE = ('one run = eight identical rounds in one driver life; a round = seeded v
         'holders; optionally an LPC error injected at instruction k of the round (same k each round); then clear everything, remove or '
         'fire the call_outs, finish the input_to, destruct the helpers. non-trivial = at least four different value kinds were built and '
         'one was shared; distinct = distinct op sequence.')
+RULE += (' Later additions: functionals made by the only object of a program of its own and dropped a command after that object is gone (op mkown); values through damaged restores (texts cut at three places, a save file naming the variable twice).')
 COMPONENTS = {'real': ['lib/lpc/array.c', 'lib/lpc/mapping.c', 'src/stralloc.c', 'lib/lpc/buffer.c', 'lib/lpc/class.c', 'lib/lpc/functional.c', 'lib/lpc/object.c', 'lib/efuns (call_out, input_to, copy, sort_array, filter, map, sprintf, save_variable, ...)',
                        'src/interpret.c', 'src/simulate.c destruct/remove_destructed_objects', 'src/backend.c', 'src/comm.c'],
               'stub': ['kernel sockets/clock/timer (simulated)'],
